@@ -28,6 +28,7 @@ CONSTANTS Writers,      \* set of writer names
           NB,           \* number of batches
           Names,        \* all file names that occur
           Counted,      \* names the progress glob counts
+          Pollers,      \* writers that only observe (progress queries): their "list" operations must not see a counted partial file
           NPolls,       \* number of polls of the poller (0: no poller)
           MaxSleeps,    \* bound on the reaper's sleeps
           WithReaper,   \* BOOLEAN
@@ -76,7 +77,8 @@ WStep(w) ==
     /\ fs' = Apply(w, Prog[w][pc[w]])
     /\ pc' = [pc EXCEPT ![w] = @ + 1]
     /\ hist' = Log(w, Prog[w][pc[w]].k)
-    /\ UNCHANGED <<alive, rpc, ri, rgot, sleeps, npoll, pollbad, crashes, reaped>>
+    /\ pollbad' = (pollbad \/ (w \in Pollers /\ Prog[w][pc[w]].k = "list" /\ \E n \in Counted : fs[n].ex /\ ~Complete(fs[n])))
+    /\ UNCHANGED <<alive, rpc, ri, rgot, sleeps, npoll, crashes, reaped>>
 
 (* C10: the process is killed before its next operation *)
 Crash(w) ==
